@@ -61,13 +61,17 @@ def omen_models(draw):
     for _ in range(draw(st.integers(1, 3))):
         pos = draw(st.integers(ngram, ngram + (3 if na <= 3 else 2)))
         ln[pos - 1] = draw(st.sampled_from([0, 0, 1, 2, 4]))
-    return {'ngram': ngram, 'alphabet': alpha, 'ip': ip, 'ep': ip, 'cp': cp, 'ln': ln}
+    om = {'ngram': ngram, 'alphabet': alpha, 'ip': ip, 'ep': ip, 'cp': cp, 'ln': ln}
+    if draw(st.integers(0, 3)) == 0:
+        # the level files as a hand edit / line-end conversion leaves them: CRLF, no newline after the last entry
+        om['file_style'] = draw(S.file_styles())
+    return om
 
 
 def load_model(om, case):
     from lib_guesser.omen.input_file_io import load_rules
     rdir = os.path.join(_dir(), 'R')
-    rsmodel.write_ruleset(rdir, {'encoding': 'utf-8', 'vars': {}, 'base': [['M', 1.0]], 'omen': om, 'm_levels': [[1, 0.5]]})
+    rsmodel.write_ruleset(rdir, {'encoding': 'utf-8', 'vars': {}, 'base': [['M', 1.0]], 'omen': om, 'm_levels': [[1, 0.5]], 'file_style': om.get('file_style')})
     grammar = {}
     with core.quiet():
         ok = guard(case, load_rules, os.path.join(rdir, 'Omen'), grammar)
